@@ -642,7 +642,8 @@ impl Analyzable for StructConstructor {
             Some(symbol) => {
                 bail_report!(Error::invalid_symbol("struct type", symbol, &self.r#type));
             }
-            _ => unreachable!(),
+            // the type name did not resolve: that is already in the report
+            None => return r#type,
         };
 
         for case in type_def.cases.iter() {
@@ -1346,7 +1347,13 @@ fn resolve_types_and_aliases(
     while pass_count < max_passes && !(types.is_resolved() && aliases.is_resolved()) {
         pass_count += 1;
 
-        let scope = Rc::get_mut(scope_rc).expect("scope should be unique during resolution");
+        // definitions analyzed earlier (policies, assets) may hold on to the scope, in which case
+        // the refreshed type symbols go into a child scope instead
+        if Rc::get_mut(scope_rc).is_none() {
+            *scope_rc = Rc::new(Scope::new(Some(scope_rc.clone())));
+        }
+
+        let scope = Rc::get_mut(scope_rc).expect("scope is unique at this point");
 
         for type_def in types.iter() {
             scope.track_type_def(type_def);
